@@ -283,3 +283,16 @@ Proof.
       simpl; tauto.
 Qed.
 Print Assumptions C13_loop_nonvacuous.
+
+(* on the barrier machine: along any path, every maximal execution of the cores on a program whose
+   conflicting pairs are all guarded terminates in the memory of the program order *)
+From Snax Require Import Model.MultiCoreStreams.
+Theorem C13_all_guarded_machine :
+  forall prog, all_guarded prog = true ->
+  forall o cores m, cores <> [] -> NoDup cores ->
+  let phs := map (filter specific) (split_phases [] (rrunl o prog [])) in
+  (forall ph op, In ph phs -> In op ph -> In (o_core op) cores) ->
+  forall cfg, steps (streams_of cores phs, m) cfg ->
+    (all_finished (fst cfg) = true /\ meq (snd cfg) (exec (concat phs) m)) \/ (exists cfg', step cfg cfg').
+Proof. exact all_guarded_machine. Qed.
+Print Assumptions C13_all_guarded_machine.
